@@ -1,7 +1,7 @@
 (* C03 -- a Stack created with capacity k never holds more than k elements.
    Property theorems only; proofs in StackCorollaries.v / StackRefine.v. *)
 From Stackage Require Import Base Generated StackImpl StackSpec StackSpecLemmas StackRefine StackCorollaries TransferImpl TransferSpec TransferProofs.
-From Stackage Require Import PushTie.
+From Stackage Require Import PushTie ConstructTie.
 Open Scope Z_scope.
 
 (* Every state reachable from a constructor call with capacity k >= 1 by ANY
@@ -136,6 +136,26 @@ Proof.
   split; [exact method_append_cut_tails|exact generic_append_cut_tails].
 Qed.
 Print Assumptions c03_policy_push_loop_is_the_source_loop.
+
+(* the limit a constructor records is the one the source records, at every
+   size (Generated.g_newStack_cap is regenerated from newStack in stack.go:
+   the assignments to cfg.cap on each path, up to "return instance") *)
+Theorem c03_constructor_records_the_limit_at_every_size :
+  forall (V : Type) (t : N) (fifo : bool) (k : Z),
+    0 < k -> in_i64 (k + 1) ->
+    exists cfg, new_stack V t fifo (Some k) = [SCfg cfg] /\ k_cap cfg = k + 1 /\
+      g_newStack_cap 1 k fifo = TCut 0 [k + 1] [].
+Proof. exact ConstructTie.new_stack_cap_positive. Qed.
+Print Assumptions c03_constructor_records_the_limit_at_every_size.
+
+Theorem c03_constructor_capacity_is_the_source_rule :
+  forall (V : Type) (t : N) (fifo : bool) (c : option Z),
+    (forall k, c = Some k -> in_i64 (k + 1)) ->
+    exists cfg, new_stack V t fifo c = [SCfg cfg] /\
+      g_newStack_cap (match c with Some _ => 1 | None => 0 end)
+                     (match c with Some k => k | None => 0 end) fifo = TCut 0 [k_cap cfg] [].
+Proof. exact ConstructTie.new_stack_cap_is_source. Qed.
+Print Assumptions c03_constructor_capacity_is_the_source_rule.
 
 Example c03_nonvacuous :
   let ops := [OPush [Some 1; Some 2; Some 3]; OPop; OInsert (Some 9) 0; OPush [Some 4; Some 5]] in
